@@ -67,6 +67,10 @@ Definition with_fields (g : group) (req : list tinfo) : list Z :=
   flat_map (fun t => f_vtbl t false) (sort_ti (g_mand g)) ++
   flat_map (fun p : tinfo * bool => f_vtbl (fst p) (negb (snd p))) (mixed (sort_ti (g_opt g)) req) ++ [2; 0; 0].
 
+(* the Final variant that into!(..) returns for a requested sublist: mandatory refs, then the requested optional ones (all unwrapped) *)
+Definition final_fields (g : group) (req : list tinfo) : list Z :=
+  flat_map (fun t => f_vtbl t false) (sort_ti (g_mand g)) ++ flat_map (fun t => f_vtbl t false) req ++ [2; 0; 0].
+
 (* the macro side: cast!(obj impl T1 + T2 ..) sorts what it was given; the group side generated one function per
    non-empty subset with the names in the sorted order of the optional list *)
 Definition macro_request (req_in_any_order : list tinfo) : list tinfo := sort_ti req_in_any_order.
@@ -83,7 +87,9 @@ Definition mask_row (g : group) (mask : Z) : list Z :=
   let defined := bz (if list_eq_dec (list_eq_dec Z.eq_dec) (names_of asked) (names_of gen) then true else false) in
   let marked := filter (fun p : tinfo * bool => snd p) (mixed (sort_ti (g_opt g)) gen) in
   let vm := mask_of nm (map fst marked) in
-  [mask; defined; vm; vm; defined; vm; -1; defined; vm; -1; defined; mask_of nm gen; mask_of nm gen; defined; -1; -1].
+  [mask; defined; vm; vm; defined; vm; -1; defined; vm; -1; defined; mask_of nm gen; mask_of nm gen; defined; -1; -1]
+  (* followed by the field sequences of the two structs the cast functions build: -5 With-variant, -6 Final variant *)
+  ++ (-5) :: (if defined =? 1 then with_fields g gen else []) ++ (-6) :: (if defined =? 1 then final_fields g gen else []).
 
 (* cglue_impl_group!(T, G, { listed }): TraitGroupImpl::parse turns the listed traits into TraitInfo, sorts them, and
    enable_opt_vtbls emits one `.enable_<trait>()` call per element: the vtables filled for T are exactly the listed ones.
